@@ -622,6 +622,17 @@ class Exec(CallsMixin):
                     hv = Val("any", fresh(f"loop_{n}", Any))
                     st.assume(hv.e != sym_ABSENT())  # `absent` encodes a missing dict entry; it is never the value of a variable
                     st.vars[n] = hv
+        ind = self.opts.get("independent_of")
+        if ind is not None and getattr(self, "ind_sources", None):
+            # non-interference: what a loop leaves in the variables it assigns may depend on anything the loop read — conservatively on the sources
+            es = [e_ for _n, e_ in self.ind_sources]
+            for n in names:
+                cur = st.vars.get(n)
+                if isinstance(cur, Val):
+                    st.vars[n] = Val(cur.tag, z3.Function(f"dep.loop.{cur.e.sort().name()}", cur.e.sort(), *[e_.sort() for e_ in es], cur.e.sort())(cur.e, *es))
+                elif isinstance(cur, Ref) and st.cell(cur).kind != "obj" and isinstance(st.cell(cur).val, Val):
+                    cv = st.cell(cur).val
+                    st.wcell(cur).val = Val(cv.tag, z3.Function(f"dep.loop.{cv.e.sort().name()}", cv.e.sort(), *[e_.sort() for e_ in es], cv.e.sort())(cv.e, *es))
         for r in roots:
             try:
                 slot = self.eval(ast.parse(r, mode="eval").body, st.fork())
